@@ -1,6 +1,8 @@
-(* C09 — NAS wire layout follows the TS 24.501 message tables.  Statements only. *)
+(* C09 — NAS wire layout follows the TS 24.501 message tables.  Statements only; proofs in
+   Proofs/NasLayoutProofs.v (reflective, over the regenerated descriptors and the tables) and Proofs/NasRefProofs.v
+   (generic). *)
 From Coq Require Import NArith List Bool String.
-Require Import Bytes NasValue NasCodec NasDesc NasCorr TS24501Tables TS24501 NasLayout NasLayoutProofs.
+Require Import Bytes NasValue NasCodec NasDesc NasCorr TS24501Tables TS24501 NasLayout NasCodecProofs NasLayoutProofs NasRefProofs.
 Import ListNotations.
 Open Scope N_scope.
 
@@ -16,10 +18,78 @@ Theorem c09_tables_are_wellformed : forallb table_ok ts24501_tables = true.
 Proof. exact tables_usable. Qed.
 Print Assumptions c09_tables_are_wellformed.
 
-(* what the comparison covers *)
+(* generic: when a descriptor agrees row by row with a table, the independent reference parser reads from the
+   library's encoding of any well-formed, table-conformant message exactly the values the message carries ... *)
+Theorem c09_reference_parser_reads_library_encoding :
+  forall d t m, desc_pair_ok d = true -> wf_msg d m = true -> layout_strict d t = true -> msg_conforms d t m = true ->
+  exists bs, nas_encode d m = Ok bs /\ ref_parse t bs = Ok (msg_view d m).
+Proof. exact ref_parse_reads_lib. Qed.
+Print Assumptions c09_reference_parser_reads_library_encoding.
+
+(* ... and the library decodes what the independent reference encoder builds, to the same contents *)
+Theorem c09_library_decodes_reference_encoding :
+  forall d t mand opt bs, desc_pair_ok d = true -> layout_strict d t = true -> ref_encode t mand opt = Ok bs ->
+  exists m, wf_msg d m = true /\ nas_encode d m = Ok bs /\ nas_decode d bs = Ok m /\
+            map fv_body (fst (msg_view d m)) = map fv_body mand /\
+            map content (snd (msg_view d m)) = map content opt.
+Proof. exact lib_reads_ref. Qed.
+Print Assumptions c09_library_decodes_reference_encoding.
+
+(* lifted: both hold for 40 of the 44 message types (all but the four with a deviation or an uncertain row) *)
+Theorem c09_forty_message_types_conform_row_by_row :
+  List.length strict_pairs = 40%nat /\
+  forall e ty d t, In (e, ty, d, t) strict_pairs ->
+    (forall m, wf_msg d m = true -> msg_conforms d t m = true ->
+       exists bs, nas_encode d m = Ok bs /\ ref_parse t bs = Ok (msg_view d m)) /\
+    (forall mand opt bs, ref_encode t mand opt = Ok bs ->
+       exists m, wf_msg d m = true /\ nas_decode d bs = Ok m /\
+                 map fv_body (fst (msg_view d m)) = map fv_body mand /\ map content (snd (msg_view d m)) = map content opt).
+Proof.
+  split; [apply strict_pairs_count|]. intros e ty d t Hin. destruct (strict_pairs_ok e ty d t Hin) as [Hl Hd]. split.
+  - intros m Hw Hc. now apply ref_parse_reads_lib.
+  - intros mand opt bs He. destruct (lib_reads_ref d t mand opt bs Hd Hl He) as (m & H1 & _ & H3 & H4 & H5). eauto.
+Qed.
+Print Assumptions c09_forty_message_types_conform_row_by_row.
+
+(* ---- scope and non-vacuity *)
 Example c09_scope :
   List.length ts24501_tables = 44%nat /\
   List.length (flat_map (fun t => tb_opt t) ts24501_tables) = 164%nat /\
   List.length uncertain_rows = 6%nat /\
-  List.length layout_diffs = 2%nat.
+  List.length layout_diffs = 2%nat /\
+  map (fun p => let '(e, ty, _, _) := p in (e, ty)) (filter (fun p => let '(_, _, d, t) := p in negb (layout_strict d t)) dispatched_pairs)
+  = [(0x7E, 0x41); (0x7E, 0x42); (0x2E, 0xC9); (0x2E, 0xCB)].
 Proof. repeat split; vm_compute; reflexivity. Qed.
+
+(* AUTHENTICATION REQUEST (a downlink message the emulator consumes): a reference-built message is accepted by
+   the hypotheses and decoded by the library model to the intended RAND / AUTN *)
+Example c09_hypotheses_met :
+  let rand := repeat 17 16 in let autn := repeat 34 16 in
+  existsb (fun p => let '(e, ty, d, _) := p in (e =? 0x7E) && (ty =? 0x56) && String.eqb (d_name d) "AuthenticationRequest") strict_pairs = true /\
+  match find_table 0x7E 0x56 with
+  | Some t =>
+      layout_strict D_AuthenticationRequest t = true /\
+      match ref_encode t [mk_fval true 0 0 [0x7E]; mk_fval true 0 0 [0]; mk_fval true 0 0 [0x56]; mk_fval true 0 0 [0];
+                          mk_fval true 0 2 [0; 0]]
+                         [mk_fval true 0x21 0 rand; mk_fval true 0x20 16 autn; absent] with
+      | Ok bs =>
+          match nas_decode D_AuthenticationRequest bs with
+          | Ok m => lookup "AuthenticationParameterRAND"%string m = Some (mk_fval true 0x21 0 rand) /\
+                    lookup "AuthenticationParameterAUTN"%string m = Some (mk_fval true 0x20 16 autn) /\
+                    wf_msg D_AuthenticationRequest m = true /\ msg_conforms D_AuthenticationRequest t m = true
+          | _ => False end
+      | _ => False end
+  | None => False end.
+Proof. cbv zeta. split; [vm_compute; reflexivity|]. vm_compute. repeat split; reflexivity. Qed.
+
+(* the two findings, as the model and the reference codec see them *)
+Example c09_last_visited_tai_is_one_octet_too_long :
+  match nf_of D_RegistrationRequest with
+  | Some nf => map (fun x => (nf_iei x, nf_fmt x)) (filter (fun x => nf_iei x =? 0x52) nf) = [(0x52, mk_wire true false 0 (WFixed 7))]
+  | None => False end.
+Proof. vm_compute. reflexivity. Qed.
+Example c09_requested_qos_rules_has_one_length_octet :
+  match nf_of D_PDUSessionModificationRequest with
+  | Some nf => map (fun x => (nf_iei x, nf_fmt x)) (filter (fun x => nf_iei x =? 0x7A) nf) = [(0x7A, mk_wire true false 1 WBuf)]
+  | None => False end.
+Proof. vm_compute. reflexivity. Qed.
